@@ -513,6 +513,76 @@ def compare(chk, label, exprs, wants, describe, shard=300):
     return agree
 
 
+def refused_archives_change_nothing(chk):
+    """"Archiving never changes the source project's recorded versions or outputs" -- also when `cond archive` REFUSES
+    to write: `-o` names a file that exists (an archive made a moment ago; a file inside a recorded output directory),
+    the task does not exist, nothing in the closure is archivable, the identifier is not one.  Each of these must end
+    non-zero, leave every existing file (the earlier archive, the outputs), the recorded rows and the trees of cond-out
+    as they were and leave no new file behind; the earlier archive must still restore.  (Seed C11/i: the existence test
+    moved inside the try whose handler unlinks a PARTIAL archive -- the file it refused to overwrite was removed.  Seed
+    C20/j: `cond archive ""` took the empty string for "no identifier" and archived the whole project.)"""
+    import hashlib
+
+    files = {"COND": 'run_command(name="plain", run="true")\n',
+             "sweep/inner/COND": 'run_experiment(name="exp", run="echo $RANDOM > $COND_OUT/data.csv; ln -s data.csv $COND_OUT/l; mkdir $COND_OUT/empty")\n',
+             "other/COND": 'run_experiment(name="o", run="echo o > $COND_OUT/o.txt")\n'}
+    root = implrun.make_project(files)
+    for extra in ([], ["--again"]):
+        implrun.run_cond(["run", "//sweep/inner:exp"] + extra, root)
+    implrun.run_cond(["run", "//other:o"], root)
+    rows = implrun.index_rows(root)
+    out = os.path.join(root, "cond-out")
+    vdir = sorted(d for d in os.listdir(os.path.join(out, "sweep", "inner")) if d.startswith("exp.task."))
+    digest = lambda p: hashlib.sha1(open(p, "rb").read()).hexdigest() if os.path.isfile(p) else None
+    backup = os.path.join(root, "backup.tar.gz")
+    first = implrun.run_cond(["archive", "//sweep/inner:exp", "-o", "backup.tar.gz"], root)
+    problems = []
+    if first.code != 0 or not os.path.isfile(backup) or len(vdir) != 2 or len(rows) != 3:
+        problems.append("harness: set-up failed: %r rows=%r dirs=%r" % (first, rows, vdir))
+    inside = os.path.join("cond-out", "sweep", "inner", vdir[-1], "data.csv") if vdir else "cond-out/x"
+    attempts = [("the same -o again", ["archive", "//sweep/inner:exp", "-o", "backup.tar.gz"], None),
+                ("-o an existing file, --latest, whole project", ["archive", "--latest", "-o", "backup.tar.gz"], None),
+                ("-o a file inside a recorded output", ["archive", "-o", inside], None),
+                ("a task that does not exist", ["archive", "//sweep/inner:nope", "-o", "new1.tar.gz"], "new1.tar.gz"),
+                ("a task without archivable outputs", ["archive", "//:plain", "-o", "new2.tar.gz"], "new2.tar.gz"),
+                ("the empty string as identifier", ["archive", "", "-o", "new3.tar.gz"], "new3.tar.gz"),
+                ("a padded identifier", ["archive", " //other:o", "-o", "new4.tar.gz"], "new4.tar.gz"),
+                ("an identifier without a name", ["archive", "//other", "-o", "new5.tar.gz"], "new5.tar.gz")]
+    for what, argv, newfile in attempts:
+        before = (digest(backup), implrun.tree_snapshot(out, skip=("version_index.sqlite",)), implrun.index_rows(root), sorted(os.listdir(root)))
+        res = implrun.run_cond(argv, root)
+        after = (digest(backup), implrun.tree_snapshot(out, skip=("version_index.sqlite",)), implrun.index_rows(root), sorted(os.listdir(root)))
+        chk.coverage["evaluations"] += 1
+        chk.count("refused-archive", what)
+        msgs = []
+        if res.code == 0:
+            msgs.append("was accepted (exit 0): %s" % implrun.strip_ansi(res.out).strip()[-160:])
+        if after[0] != before[0]:
+            msgs.append("the archive written earlier (backup.tar.gz) was %s" % ("removed" if after[0] is None else "changed"))
+        if after[1] != before[1]:
+            msgs.append("the outputs under cond-out changed: %r" % sorted(set(before[1].items()) ^ set(after[1].items()))[:3])
+        if after[2] != before[2]:
+            msgs.append("the recorded versions changed: %r -> %r" % (before[2], after[2]))
+        if after[3] != before[3]:
+            msgs.append("files appeared or disappeared in the project root: %r" % sorted(set(before[3]) ^ set(after[3])))
+        for m in msgs[:2]:
+            problems.append("`cond %s` (%s) %s" % (" ".join(repr(a) if a == "" or " " in a else a for a in argv), what, m))
+        if not msgs:
+            chk.coverage["traces_validated_against_impl"] += 1
+    # the earlier archive still restores into a project that lacks the versions
+    if not problems:
+        dest = implrun.make_project(files, name="dest")
+        shutil.copy(backup, os.path.join(dest, "backup.tar.gz"))
+        r = implrun.run_cond(["restore", "backup.tar.gz"], dest)
+        got = [x for x in implrun.index_rows(dest)]
+        want = [x for x in rows if x[0] == "//sweep/inner:exp"]
+        if r.code != 0 or got != want or implrun.tree_snapshot(os.path.join(dest, "cond-out", "sweep")) != implrun.tree_snapshot(os.path.join(out, "sweep")):
+            problems.append("the archive made before the refused attempts no longer restores the selected versions: exit %s rows %r (wanted %r)" % (r.code, got, want))
+    for msg in problems[:3]:
+        chk.violation("impl-violation", "refused archive: %s" % msg, {"input": {"kind": "refused-archives", "files": files, "attempts": [a[1] for a in attempts]}, "oracle_verdict": msg},
+                      match_key={"part": "refused-archives"}, size=3)
+
+
 def run(tier, seed, replay=None):
     chk = Check("C11", tier, seed)
     chk.build_proofs(["Model/Archive.vo", "Lib/Cmp.vo", "Refuted/TraverseOld.vo"])
@@ -547,6 +617,7 @@ def run(tier, seed, replay=None):
     cases, ex_a, w_a, nt_a = part_queries(chk, tier)
     graphs, ex_b, w_b, nt_b = part_traverse(chk, tier)
     _jobs, ex_c, w_c, meta, nt_c = part_e2e(chk, tier)
+    refused_archives_change_nothing(chk)
     chk.coverage["distinct_nontrivial"] = nt_a + nt_b + nt_c
     chk.coverage["exhaustive"] = False
     chk.coverage["rule"] = (
